@@ -590,6 +590,14 @@ theorem TV.Props.C16.single_target_accepted (mode : TV.Builder.OutMode) (proto :
   unfold TV.Builder.validateMulti
   cases mode.singleTrace <;> cases proto <;> simp
 
+/-- **C16, privileges.**  A configuration is accepted exactly when its privilege mode can work here: privileged
+mode needs the privileges, unprivileged mode needs a platform with unprivileged ICMP sockets — an unsupported
+combination is refused up front, whatever the other component says. -/
+theorem TV.Props.C16.privilege_accepted_iff (unprivileged has needs : Bool) :
+    TV.Builder.validatePrivilege unprivileged has needs = true ↔
+      (unprivileged = false ∧ has = true) ∨ (unprivileged = true ∧ needs = false) := by
+  cases unprivileged <;> cases has <;> cases needs <;> simp [TV.Builder.validatePrivilege]
+
 #print axioms TV.Props.C16.layer_cli
 #print axioms TV.Props.C16.layer_file
 #print axioms TV.Props.C16.layer_default
@@ -649,3 +657,4 @@ theorem TV.Props.C16.single_target_accepted (mode : TV.Builder.OutMode) (proto :
 #print axioms TV.Props.C16.cli_stricter_than_builder
 #print axioms TV.Props.C16.several_targets_only_for_icmp
 #print axioms TV.Props.C16.single_target_accepted
+#print axioms TV.Props.C16.privilege_accepted_iff
